@@ -1,8 +1,8 @@
 """C02 — every accepted program yields Go the Go compiler would accept: Go.Check (Lean) on the
 real Go AST of every accepted corpus / generated program."""
-import os, re, subprocess
+import json, os, re, subprocess
 import vlib
-from props import c01
+from props import c01, dce
 
 def classify(detail):
     """type classes in an error detail, so that a finding is keyed by its shape, not by names"""
@@ -19,21 +19,37 @@ def classify(detail):
 
 gocheck = c01.gocheck
 
+def _replay_is_dce(path):
+    try:
+        return json.load(open(path)).get("signature", {}).get("source") == "dce"
+    except Exception:
+        return False
+
+
 def run(ctx):
     ctx.extract()
-    mods = [m for m in ["GomlVerif.Props.C02"] if os.path.exists(os.path.join(vlib.LEAN, m.replace(".", "/") + ".lean"))]
+    mods = [m for m in ["GomlVerif.Props.C02", dce.PROP_MODULE] if os.path.exists(os.path.join(vlib.LEAN, m.replace(".", "/") + ".lean"))]
     ctx.build_lean(mods)
     if not ctx.build_harness():
         return ctx.finish("translation_validation", {"programs": 0, "disagreements_checked": 0, "samples": []}, [], "lake build")
     progs, feats = c01.collect(ctx)
     lines = [f"{pid}\t{d['stages']['go']}" for pid, d in progs.items() if "go" in d["stages"]]
     res = gocheck(ctx, lines)
-    n = n_ok = 0
+    n = n_ok = n_pprint = 0
     samples, distinct, codes = [], set(), {}
     for pid, d in progs.items():
         if "go" not in d["stages"]:
             continue
         n += 1
+        # the text the user's `go build` sees: go_pprint.rs output must parse (Go's lexical rules incl.
+        # automatic semicolons, precedence, composite-literal rule) back to the AST that is checked here
+        pp = d.get("pprint")
+        if pp is not None:
+            n_pprint += 1
+            if pp[0] != "ok":
+                ctx.report({"oracle": "go-printer", "kind": pp[0]},
+                           "the printed Go text does not parse back to the Go AST it was printed from (go build would reject or misread it)",
+                           {"id": pid, "src": d.get("src"), "detail": pp[1][:600]})
         r = res.get(pid)
         if r is None or r[0] in ("decode-error", "parse-error"):
             ctx.broken_ties.append(("gocheck driver", f"{pid}: {r}"))
@@ -67,16 +83,23 @@ def run(ctx):
             seen.add(key)
             ctx.report(sig, f"emitted Go is rejected by Go's rules: {code} {shape}",
                        {"id": pid, "src": d.get("src"), "error": e, "function": site})
-    ctx.violations.sort(key=lambda v: len(v[2].get("src") or "x" * 10**6))
+    # ---- dead-code elimination (go/dce.rs): model = implementation, Go's rules on its real output
+    dce_cov = None
+    if not ctx.replay or _replay_is_dce(ctx.replay):
+        dce_cov, found = dce.evaluate(ctx)
+        for sig, what, payload in dce.split_for_properties(found)[0]:
+            ctx.report(sig, what, payload)
+    ctx.violations.sort(key=lambda v: len(v[2].get("src") or v[2].get("input") or "x" * 10**6))
     cov = {
         "programs": n, "disagreements_checked": len(ctx.violations), "samples": samples or [{"id": "corpus"}],
         "evaluations": n, "distinct_nontrivial": len(distinct),
         "rule": "every accepted corpus and generated program's real goast::File checked by Go.Check; distinct by Go size",
-        "accepted_by_gocheck": n_ok, "error_codes": codes, "generator_features": feats,
+        "printed_go_text_parsed_back": n_pprint, "accepted_by_gocheck": n_ok, "error_codes": codes, "generator_features": feats,
+        "dce": dce_cov,
     }
     ctx.assumptions += [
         "Go.Check (lean/GomlVerif/Model/GoCheck.lean) is our reading of the Go rules for the emitted subset; it accepts the corpus programs real Go accepted and rejects 058 as real Go did",
-        "the goast is checked, not the pretty-printed text (go_pprint.rs is outside this check)",
+        "Go.Check judges the goast; the pretty-printed text (go_pprint.rs) is tied to that AST by parsing it back with harness/src/goparse.rs (our reading of Go's lexical grammar: automatic semicolon insertion, operator precedence, composite-literal restriction)",
         "extern \"go\" items are typed from their declared goml signature only",
     ]
     tb = ["Lean 4 (compiled Go.Check)", "harness/src/godump.rs", "tools/props/c02.py"]
